@@ -138,17 +138,17 @@ def extract_app(app):
 
 
 def all_texts(node_list, tokens):
+    """every text int()/float() may be applied to: suffixes of tokens and string defaults of any format"""
     out = set()
-    for t in tokens:
-        for k in range(len(t) + 1):
-            out.add(t[k:])
 
     def walk(n):
-        pc._collect_defaults(n["fmt"], out)
+        out.update(pc.texts_of(n["fmt"], tokens))
         for s in n["subs"]:
             walk(s)
     for n in node_list:
         walk(n)
+    if not node_list:
+        out.update(pc.texts_of({"args": [], "opts": []}, tokens))
     return out
 
 
